@@ -270,17 +270,22 @@ def run(repo, rep):
                         srt_names.append(norm_k(a_.prov))
                 if len(srt_names) == nk:
                     keys = srt_names
+            # on a path that assumes the dict is longer than max_seq_len a prefix of the pairs is shown (how long, and the notice: C10)
+            lengths = range(nk, -1, -1) if pr.assumed('max_seq_len <', True) else [nk]
             for seq in D.all_layouts(t):
                 sig = list(S.content_sig(seq))
-                want = [('Text', '{')]
-                for i in range(nk):
-                    want += [('Sub', keys[i]), ('Text', ':'), ('Sub', 'd[%s]' % keys[i])]
-                    if i < nk - 1:
-                        want.append(('Text', ','))
-                want.append(('Text', '}'))
-                if sig != want:
+                wants = []
+                for m_ in lengths:
+                    want = [('Text', '{')]
+                    for i in range(m_):
+                        want += [('Sub', keys[i]), ('Text', ':'), ('Sub', 'd[%s]' % keys[i])]
+                        if i < m_ - 1:
+                            want.append(('Text', ','))
+                    want.append(('Text', '}'))
+                    wants.append(want)
+                if sig not in wants:
                     ok = False
-                    why = 'content %s, expected %s' % (sig, want)
+                    why = 'content %s, expected %s' % (sig, wants[0])
             rep.check(ok, 'C01.a', 'pretty_dict[n=%d]{%s}:content' % (nk, _short(pr)), fd.where,
                       '{ key: value, ... } with every pair once, in iteration order', 'a %d-pair dict: %s' % (nk, why), nontrivial=True)
     rep.floor('C01.a:dict', n, 10)
